@@ -771,6 +771,11 @@ func run(c *hx.Ctx) {
 	for i := 0; i < n; i++ {
 		r := c.R.Fork()
 		cs := Case{Seed: r.U64(), Regime: i % 6, Opts: chaingen.GenOpts{Blocks: 5 + r.Intn(10), Branchiness: 2 + r.Intn(3), TxPerBlock: 1 + r.Intn(4), Corruptions: r.Intn(3), Jitter: r.Intn(4), OnInvalid: r.Intn(2)}}
+		if i%5 == 3 {
+			// same-block contract shapes among the ordinary kinds (see chaingen/contractshapes.go)
+			cs.Opts.Kinds = append(append(append([]string(nil), chaingen.TxKinds...), chaingen.ShapeKinds...), chaingen.ShapeKinds...)
+			cs.Opts.TxPerBlock = 2 + r.Intn(3)
+		}
 		t := cs.Tree()
 		pr := rng.New(cs.Seed ^ 0x5bd1e995)
 		if i%2 == 0 {
